@@ -400,6 +400,10 @@ pub fn gen_aliases_with_doc(d: &Data, r: &mut Rng) -> (Vec<String>, Vec<String>)
     (into, from)
 }
 
+/// alias lines the library rejects (the command line must then print the library's message
+/// for the right section and line)
+pub const BAD_ALIAS: [&str; 5] = ["x >", "ʃ > > sh", "q => [+voice", "=> a", "a:[+zzz] > b"];
+
 pub fn gen_aliases(r: &mut Rng) -> (Vec<String>, Vec<String>) {
     let mut into = Vec::new();
     let mut from = Vec::new();
@@ -411,6 +415,16 @@ pub fn gen_aliases(r: &mut Rng) -> (Vec<String>, Vec<String>) {
     if r.chance(1, 2) {
         for _ in 0..r.range(1, 3) {
             from.push(r.pick(&ALIAS_FROM).to_string());
+        }
+    }
+    if r.chance(1, 12) {
+        let bad = r.pick(&BAD_ALIAS[..]).to_string();
+        if r.chance(1, 2) {
+            let at = r.below(into.len() + 1);
+            into.insert(at, bad);
+        } else {
+            let at = r.below(from.len() + 1);
+            from.insert(at, bad);
         }
     }
     (into, from)
